@@ -189,6 +189,8 @@ class Builtins:
 
     def b_spec_is_digit_string(self, args, kw, st, fr):
         from .anyval import is_digits
+        if isinstance(args[0], (SInt, SBool, SNone)):
+            return self.ex.ok(SBool(False), st)
         if isinstance(args[0], SStr) and args[0].lit is not None:
             import re as _re
             return self.ex.ok(SBool(bool(_re.match(r'\d+$', args[0].lit))), st)
@@ -198,6 +200,8 @@ class Builtins:
 
     def b_spec_int_accepts(self, args, kw, st, fr):
         from .anyval import int_ok
+        if isinstance(args[0], (SInt, SBool)):
+            return self.ex.ok(SBool(True), st)
         A = self.ex.C.AnyT
         a = self.ex.C.to_any(args[0])
         return self.ex.ok(SBool(z3.And(A.is_s(a.t), int_ok(A.sv(a.t)))), st)
@@ -214,6 +218,24 @@ class Builtins:
                 return self.ex.ok(self.ex.C.to_any(args[0]), st)
         a = self.ex.C.to_any(args[0])
         return self.ex.ok(SAny(z3.If(z3.And(A.is_s(a.t), is_digits(A.sv(a.t))), A.i(int_of_str(A.sv(a.t))), a.t)), st)
+
+    def b_spec_dict_int_values_between(self, args, kw, st, fr):
+        d, lo, hi = args
+        C = self.ex.C
+        has, val = C.dict_arrays(st)
+        k = z3.Const('k!dv', C.AnyT)
+        v = z3.Select(z3.Select(val, d.t), k)
+        body = z3.Implies(z3.Select(z3.Select(has, d.t), k), z3.And(C.AnyT.is_i(v), C.AnyT.iv(v) >= lo.t, C.AnyT.iv(v) <= hi.t))
+        return self.ex.ok(SBool(z3.ForAll([k], body)), st)
+
+    def b_spec_int_value_of(self, args, kw, st, fr):
+        from .anyval import int_of_str
+        a = args[0]
+        if isinstance(a, SInt):
+            return self.ex.ok(a, st)
+        if isinstance(a, SStr) and a.lit is not None and a.lit.isdigit():
+            return self.ex.ok(SInt(int(a.lit)), st)
+        return self.ex.ok(SInt(int_of_str(a.t)), st)
 
     def b_spec_old_dict(self, args, kw, st, fr):
         pre = self.ex.spec_pre or st
@@ -450,6 +472,14 @@ class Builtins:
         v = args[0]
         if isinstance(v, SInt):
             return ex.ok(v, st)
+        if isinstance(v, SFloat):
+            # int(float(num/den)): binary64 rounding happens before truncation (A-float)
+            r = fresh_int('int_of_float')
+            B53 = 2 ** 53
+            small = z3.And(v.num >= -B53, v.num <= B53, v.den >= -B53, v.den <= B53)
+            q, rem = ex.divmod_terms(v.num, v.den, st)
+            st.assume(z3.Implies(small, z3.And(r >= q - 1, r <= q + 1, z3.Implies(rem == 0, r == q))))
+            return ex.ok(SInt(r), st)
         if isinstance(v, SBool):
             return ex.ok(SInt(z3.If(v.t, 1, 0)), st)
         if isinstance(v, SAny):
@@ -472,6 +502,22 @@ class Builtins:
             if m is not None:
                 return ex.C.call_method(v, '__str__', [], {}, st, fr)
         return ex.ok(ex.C.str_of(v, st), st)
+
+    def b_round(self, args, kw, st, fr):
+        "round(int, ndigits): ints round half to EVEN at negative ndigits (CPython)"
+        ex = self.ex
+        x = args[0]
+        if not isinstance(x, SInt) or len(args) != 2 or not isinstance(args[1], SInt):
+            raise Unsupported('round() of %r' % (x,))
+        n = args[1].t
+
+        def neg(s):
+            ex.C.pow10_facts(s, -n)
+            m = pow10(-n)
+            q, r = ex.divmod_terms(x.t, m, s)
+            res = z3.If(2 * r < m, q * m, z3.If(2 * r > m, (q + 1) * m, z3.If(q % 2 == 0, q * m, (q + 1) * m)))
+            return ex.ok(SInt(res), s)
+        return ex.split(n >= 0, st, lambda s: ex.ok(x, s), neg)
 
     def b_repr(self, args, kw, st, fr):
         return self.ex.ok(SStr(struct=('repr', args[0])), st)
